@@ -63,6 +63,11 @@ func (fx *Fx) evalCall(st *State, call *ast.CallExpr, spec bool) []Val {
 	if fv.Fn != nil {
 		return fx.callClosure(st, fv.Fn, args, call)
 	}
+	// calling a nil function value panics
+	if !spec && fx.inSpec == 0 && fv.S == SRef {
+		fx.oblige(st, "nil", "call("+exprText(call.Fun)+")", not(app("=", fv.X, "nil")), "call of a nil function value")
+		st.assume(not(app("=", fv.X, "nil")))
+	}
 	sig, _ := fx.typeOf(call.Fun).Underlying().(*types.Signature)
 	return fx.abstractCall(st, fv.X, fx.funcValueName(call.Fun), args, sig, call)
 }
